@@ -60,8 +60,8 @@ LEVEL_TEXT = {
             "assignment and evaluateAll the abstract pass; these state conditions hold in every world reached by creating properties, plain observers, fresh "
             "evaluator-driven bindings, assignments and evaluateAll, and in such a network the registration order is a duplicate-free dependency order; hence "
             "after ONE evaluateAll every registered bound property equals its expression recomputed from scratch (no further premise); the same for histories "
-            "that also reset() bound properties, destroy properties nobody reads (PropGrowLazyMore.v) move-construct properties and move-assign them over destinations no live binding reads (PropMoveLazy.v: the destination's old binding dies and leaves its registry), and a reset binding is dead and out of the registry evaluateAll iterates; for EVERY history (any outcome, acting observers): registries hold live bindings only and a dead binding stays dead, so a reset, replaced or destroyed binding is never evaluated again (PropReg.v); notifications only for changed values (PropNotify.v): in any world a Binding::evaluate whose result equals the current value calls no observer, and an evaluateAll of such a network that leaves every registered property's value as it was has called no observer and never changes an unregistered property; an evaluateAll directly after another returns the very same world (for the networks above without any premise, PropTgt.v). In MIXED worlds (PropMixedLazy.v: immediate and evaluator-driven bindings together, no acting observers) every cache of every evaluator-driven tree is right for the current values in every world a growing network reaches, through every assignment with its cascade of immediate re-evaluations, so every evaluation of such a binding assigns exactly its expression over the current inputs. PARTIAL: the ONE-PASS statement in mixed worlds (immediate and evaluator-driven bindings "
-            "together, acting observers, replacement of a binding by direct rebinding) are covered by the extracted checker "
+            "that also reset() bound properties, destroy properties nobody reads (PropGrowLazyMore.v) move-construct properties and move-assign them over destinations no live binding reads (PropMoveLazy.v: the destination's old binding dies and leaves its registry), and a reset binding is dead and out of the registry evaluateAll iterates; for EVERY history (any outcome, acting observers): registries hold live bindings only and a dead binding stays dead, so a reset, replaced or destroyed binding is never evaluated again (PropReg.v); notifications only for changed values (PropNotify.v): in any world a Binding::evaluate whose result equals the current value calls no observer, and an evaluateAll of such a network that leaves every registered property's value as it was has called no observer and never changes an unregistered property; an evaluateAll directly after another returns the very same world (for the networks above without any premise, PropTgt.v). In MIXED worlds (PropMixedLazy.v: immediate and evaluator-driven bindings together, no acting observers) every cache of every evaluator-driven tree is right for the current values in every world a growing network reaches, through every assignment with its cascade of immediate re-evaluations, so every evaluation of such a binding assigns exactly its expression over the current inputs; and ONE evaluateAll of an explicit evaluator leaves every property bound through it equal to its expression over the values after the pass (PropMixedPass.v: creation order is a rank under which setHelper(q) touches nothing below q but q). PARTIAL: acting observers, "
+            "and direct rebinding / moves / destruction in mixed worlds, are covered by the extracted checker "
             "check_c06_after_evalall on every evaluateAll of every generated history and by correspondence.", '6/C06'),
     'C07': ("Machine-checked on the executable model: every direct write to a bound property raises ReadOnlyProperty and leaves the world unchanged; reset keeps "
             "value and observers, removes the updater and re-enables the normal write protocol; destroying/replacing a binding touches no property and no "
